@@ -64,6 +64,8 @@ CHECKS = {
     },
     "C09": {
         "suites": [{"suite": "decay", "n_quick": 400, "n_thorough": 6000, "shards": 4, "shards_thorough": 16, "eval": "python3 decay_eval.py {cases} {work} 4"},
+                   # the timestamps outputs are valued from, as the node records them (chain histories)
+                   {"suite": "chain", "mode": "mixed", "args": "-mode mixed", "n_quick": 32, "n_thorough": 800, "shards": 4, "shards_thorough": 16, "seed_off": 9},
                    # what a wallet sees: balances of income-only holdings through the access node
                    {"suite": "views", "n_quick": 120, "n_thorough": 3000, "shards": 4, "shards_thorough": 16, "seed_off": 9}],
         "monitor_props": ["C09"],
@@ -142,6 +144,8 @@ CHECKS = {
     },
     "C02": {
         "suites": chain_suites(2, extra=[{"suite": "forks", "n_quick": 160, "n_thorough": 4000, "shards": 8, "shards_thorough": 16}]),
+        "also_props": ["C16_atomic.v"],
+        "lockset_query": True,
         "monitor_props": ["C02"],
         "mismatch_kinds": ["admit", "validate", "update"],
         "rule": CHAIN_RULE + " For C02 the generator submits conflicting spends in every position: the same output twice in one transaction, in two pooled transactions, in the last block and the pool, in adjacent and distant blocks, across a re-sync, and resubmissions; the monitor recomputes the consumed-reference multiset of every served chain.",
@@ -159,7 +163,7 @@ CHECKS = {
                         "a reward transaction's own yielding output is not subject to the registration test (the property speaks of ordinary transactions)"],
     },
     "C13": {
-        "suites": [{"suite": "faults", "n_quick": 48, "n_thorough": 1200, "shards": 8, "shards_thorough": 16}],
+        "suites": [{"suite": "faults", "n_quick": 160, "n_thorough": 1200, "shards": 8, "shards_thorough": 16}],
         "monitor_props": ["C13"],
         "mismatch_kinds": ["update", "validate", "admit", "regsync"],
         "rule": "faults suite: host chains of 0, 1, 2, 3, 4, 6 blocks (with pending removals), 5-7 consecutive sync rounds, each with 1-8 neighbors drawn from: error, silence beyond the timeout, garbage, empty answer, a chain with one rule broken at one position (16 kinds), answers that change between the incremental and the full request, honest; every round is compared with the model; monitors: a kept round leaves the complete state digest unchanged, the round returns within 2*n*timeout + 1 s, runtime.NumGoroutine returns to its baseline; distinct by (host length, fault assignment, outcome)",
@@ -204,6 +208,8 @@ CHECKS = {
                    {"suite": "faults", "n_quick": 16, "n_thorough": 400, "shards": 4, "shards_thorough": 16, "seed_off": 14},
                    # peer-supplied targets (announced, or named as broadcaster of a transaction) reach the refresh loop of the neighborhood
                    {"suite": "net", "n_quick": 200, "n_thorough": 8000, "shards": 4, "shards_thorough": 16, "seed_off": 14}],
+        "also_props": ["C16.v"],
+        "lockset_query": True,
         "monitor_props": ["C14"],
         "rule": "crash suite: a valid transaction request, a valid chain (as a neighbor's sync answer) and a validator's utxo answer are mutated at every schema position with 14 fault kinds (null, absent, empty list/object, wrong types, negative, 2^64, 2^64-1, -2^63, float, list of null, nested null), ids recomputed in 4 cases of 5 so the message passes integrity checks, and fed to the real validator handlers, to a sync round, and to the access-node controllers (as validator answers and as request bodies); after each message the operations that later touch stored data run (production, admission, queries); fixed probes null, {}, [], \"\", 0 on every endpoint. The chain and faults suites add multi-step histories (re-spends of partially spent transactions, candidates broken at any position): a panic anywhere ends the harness process and is reported with the input being tried; extreme block heights (2^64-1, 2^63, ...) at the blocks endpoint; the net suite feeds malformed announced and broadcaster targets to the refresh loop of the neighborhood. distinct by (target, position, fault kind)",
         "trusted_base": ["Go's JSON lexer, golang-p2p framing and gin are not modelled; a panic inside gin-served handlers would be recovered in production (the harness calls the controllers directly and reports it)"],
